@@ -84,6 +84,7 @@ static mode_t harness_umask(mode_t m);
 #include <sys/resource.h>
 #include <sys/ioctl.h>
 #include <pthread.h>
+#include <limits.h>
 
 #define C2S_HEX_LIMIT 30000  /* longer client streams are reported by length + crc32 only */
 #define MAX_TIMEOUTS 3       /* after that many hanging cases the rest of the batch is answered `skipped` */
@@ -504,6 +505,25 @@ static void *conn_thread(void *arg)
     return NULL;
 }
 
+/* the receiver threads of rpdcp run on small stacks: dsh.c creates every per-target thread with
+ * _dsh_attr_init(&attr, DSH_THREAD_STACKSIZE) (128 KiB; the value is passed in from the tree under test).  A
+ * receiver that keeps large objects in the frames of the recursive _sink() overruns such a stack on a deep tree. */
+#ifndef HARNESS_THREAD_STACKSIZE
+#define HARNESS_THREAD_STACKSIZE (128 * 1024)
+#endif
+static int create_receiver(conn_t *c)
+{
+    pthread_attr_t attr;
+    size_t sz = (size_t) (HARNESS_THREAD_STACKSIZE);
+    int rc;
+    if (sz < (size_t) PTHREAD_STACK_MIN) sz = (size_t) PTHREAD_STACK_MIN;
+    pthread_attr_init(&attr);
+    pthread_attr_setstacksize(&attr, sz);
+    rc = pthread_create(&c->th, &attr, conn_thread, c);
+    pthread_attr_destroy(&attr);
+    return rc;
+}
+
 static void drain_all(conn_t *cs, int k)
 {
     unsigned char tmp[4096];
@@ -571,7 +591,7 @@ static void multi_child(const char *jail, const char *cwd, int p, int y, int um,
         int ab[2] = { ua, ub };
         for (int x = 0; x < 2 && !to; x++) {
             cs[ab[x]].upark = 1;
-            if (pthread_create(&cs[ab[x]].th, NULL, conn_thread, &cs[ab[x]]) != 0) _exit(97);
+            if (create_receiver(&cs[ab[x]]) != 0) _exit(97);
             if (wait_quiet(cs, k, ab[x], 0, &t0, MULTI_LIMIT_MS) < 0) to = 1;
             if (__atomic_load_n(&cs[ab[x]].parked, __ATOMIC_SEQ_CST)) was_parked = 1;
         }
@@ -583,7 +603,7 @@ static void multi_child(const char *jail, const char *cwd, int p, int y, int um,
     }
     for (int i = 0; i < k && !to; i++) {
         if (i == ua || i == ub) continue;
-        if (pthread_create(&cs[i].th, NULL, conn_thread, &cs[i]) != 0) _exit(97);
+        if (create_receiver(&cs[i]) != 0) _exit(97);
         if (wait_quiet(cs, k, i, 0, &t0, MULTI_LIMIT_MS) < 0) to = 1;
     }
     for (int j = 0; j < maxch && !to; j++)
